@@ -116,8 +116,14 @@ def fanout_sites(prog):
             if isinstance(n, ast.Call) and isinstance(n.func, ast.Attribute):
                 if n.func.attr in ("map", "submit", "imap", "starmap", "apply_async", "map_async") and isinstance(n.func.value, ast.Name) and "pool" in n.func.value.id.lower():
                     sites.append((fi, n))
-                if n.func.attr in UNORDERED and (norm(n.func.value) in ("futures", "concurrent.futures") or "pool" in norm(n.func.value).lower()):
-                    banned.append((fi, n))
+                if n.func.attr in UNORDERED:
+                    r = prog.resolve_attr(fi.mod, n.func.value)
+                    ext = r[1] if r and r[0] == "ext" else ""
+                    if (norm(n.func.value) in ("futures", "concurrent.futures") or "pool" in norm(n.func.value).lower()
+                            or ext.startswith("concurrent") or ext.startswith("multiprocessing")):
+                        banned.append((fi, n))
             if isinstance(n, ast.Call) and isinstance(n.func, ast.Name) and n.func.id in UNORDERED:
-                banned.append((fi, n))
+                r = prog.resolve_name(fi.mod, n.func.id)
+                if r and r[0] == "ext" and (r[1].startswith("concurrent") or r[1].startswith("multiprocessing")):
+                    banned.append((fi, n))
     return sites, banned
